@@ -358,6 +358,7 @@ def _cast(e, env):
     ty = e[2]
     if ty.startswith('int') or ty in ('signed', 'bigint', 'integer'):
         if a.sort in ('int', 'bool', 'null'): return to_int(a)
+        if a.sort == 'digits': return SV('int', a.t, a.n)        # a group of decimal digits read as a number
     if ty in ('text', 'varchar', 'char') and a.sort == 'str': return a
     if ty in ('text', 'varchar', 'char') and a.sort == 'int': return SV('str', INT2STR(a.t), a.n)
     if ty in ('bool', 'boolean') and a.sort == 'bool': return a
@@ -365,7 +366,12 @@ def _cast(e, env):
 
 
 def _typed_lit(e, env):
-    raise Unmodelled('date/time literal')
+    import re
+    v = e[2]
+    text = v[1] if isinstance(v, tuple) else v
+    mo = re.match(r'(\d{4})-(\d{2})-(\d{2})$', text) if isinstance(text, str) and str(e[1]).lower() == 'date' else None
+    if mo is None: raise Unmodelled('date/time literal')
+    return SV('date', z3.IntVal(int(mo.group(1)) * 10000 + int(mo.group(2)) * 100 + int(mo.group(3))))
 
 
 def substr_window(dialect, n, start, length, has_len):
@@ -528,6 +534,16 @@ def _func(e, env):
     if name in ('substr', 'substring'):
         s = a[0]
         if s.sort == 'null': return s
+        if s.sort == 'date':
+            # the fixed-width text 'YYYY-MM-DD' of a date: substr with constant positions picks digit groups of it
+            if len(a) != 3 or not (z3.is_int_value(a[1].t) and z3.is_int_value(a[2].t)): raise Unmodelled('substr of a date with non-constant positions')
+            st, ln = a[1].t.as_long(), a[2].t.as_long()
+            text = 'YYYY-MM-DD'
+            piece = text[st - 1:st - 1 + ln] if st >= 1 else None
+            k = s.t
+            part = {'YYYY': k / 10000, 'MM': (k / 100) % 100, 'DD': k % 100}.get(piece)
+            if part is None: raise Unmodelled('substr(date, %d, %d)' % (st, ln))
+            return SV('digits', part, s.n)
         if s.sort not in ('str', 'win'): raise Unmodelled('substr of %s' % s.sort)
         start = to_int(a[1])
         has_len = len(a) > 2
@@ -608,6 +624,12 @@ def _func(e, env):
         if dialect != 'MySQL': raise Unmodelled('TRIM(... FROM ...) semantics of %s' % dialect)
         kind = name[:-4]
         return SV('str', z3.If(z3.Length(c.t) == 1, py_trim(kind, v.t, c.t), z3.If(z3.Length(c.t) == 0, v.t, MYSQL_TRIM[kind](v.t, c.t))), z3.Or(v.n, c.n))
+    if name in ('extract_year', 'extract_month', 'extract_day', 'year', 'month', 'day') and len(a) == 1:
+        v = a[0]
+        if v.sort == 'null': return typed_null(v, 'int')
+        if v.sort != 'date': raise Unmodelled('%s of %s' % (name, v.sort))
+        part = name.split('_')[-1]
+        return SV('int', {'year': v.t / 10000, 'month': (v.t / 100) % 100, 'day': v.t % 100}[part], v.n)
     if name in ('power', 'pow') and len(a) == 2:
         x, y = a
         if x.sort == 'bool': x = to_int(x)
